@@ -22,7 +22,7 @@ REAL_VS_STUB = {"real": ["load_ff_library, ff/itp parsers, MetaMolecule builders
                          "find_missing_edges, vermouth write_molecule_itp + DeferredFileWriter, Topology.from_gmx_topfile, "
                          "bin/polyply main() (argument parsing) in a fraction of the calls, real file system"],
                 "stub": ["tqdm disabled", "sys.argv pinned", "os.listdir of the library directory sorted/permuted by the harness"]}
-PROBES = ["read_back_through_nested_include", "read_back_from_other_cwd_with_decoy", "read_back_with_guard_tags_defined", "publish_across_filesystems", "via_main", "same_path_backup", "after_failed_call", "cwd_differs", "lib_job", "conditional_interactions",
+PROBES = ["read_back_next_to_lower_case_namesake", "read_back_through_nested_include", "read_back_from_other_cwd_with_decoy", "read_back_with_guard_tags_defined", "publish_across_filesystems", "via_main", "same_path_backup", "after_failed_call", "cwd_differs", "lib_job", "conditional_interactions",
           "json_graph", "cyclic_graph"]
 
 
@@ -66,6 +66,8 @@ def gen_job(verif_seed, tier, index):
             op["read_with_defines"] = True
         if not op.get("read_with_decoy_in_cwd") and g.random() < 0.2:
             op["read_indirect"] = True
+        elif not op.get("read_with_decoy_in_cwd") and g.random() < 0.25:
+            op["read_with_case_decoy"] = True
         if g.random() < 0.15 and op.get("expect") != "fail":
             op["via_main"] = True
         ops.append(op)
@@ -85,6 +87,8 @@ def run_job(job):
         expect_fail = op.get("expect") == "fail"
         if op.get("read_with_decoy_in_cwd"):
             probes["read_back_from_other_cwd_with_decoy"] = probes.get("read_back_from_other_cwd_with_decoy", 0) + 1
+        if op.get("read_with_case_decoy"):
+            probes["read_back_next_to_lower_case_namesake"] = probes.get("read_back_next_to_lower_case_namesake", 0) + 1
         if op.get("read_indirect"):
             probes["read_back_through_nested_include"] = probes.get("read_back_through_nested_include", 0) + 1
         if op.get("read_with_defines"):
